@@ -115,6 +115,10 @@ def classify(e):
     return "E:other:" + type(e).__name__
 
 
+def _expect(cls):
+    raise Expected(cls)
+
+
 class Expected(Exception):
     """blueprint: the call must be rejected with this class"""
     def __init__(self, cls):
@@ -210,33 +214,38 @@ class Blue(object):
         return self.mk(NTN["STR_CONSTANT"], (), ("s", s), ("S",))
 
     def BV(self, val, width):
+        """width: None, an int, or ("alt", n, python value): a bool / float equal to the int n"""
         kind, v = val
+        alt = isinstance(width, tuple)
+        wnum = width[1] if alt else width
         if kind == "str":
             body = v[2:] if v.startswith("#b") else v
             if body == "" or any(c not in "01" for c in body):
                 raise Expected("E:value")
-            if width is not None and width != len(body):
+            if wnum is not None and wnum != len(body):
                 raise Expected("E:value")
-            width = len(body)
-            v = int(body, 2)
-        elif kind != "int":
-            if width is None:
-                raise Expected("E:value")
+            return self.mk(NTN["BV_CONSTANT"], (), ("v", int(body, 2), len(body)), ("V", len(body)))
+        if wnum is None:
+            raise Expected("E:value")
+        if alt:
+            raise Expected("E:type")        # the width is part of the constant: only an int names it
+        if wnum <= 0:
+            raise Expected("E:value")
+        if kind != "int":
             raise Expected("E:type")
-        if width is None:
+        if v < 0 or v >= 2 ** wnum:
             raise Expected("E:value")
-        if v < 0 or v >= 2 ** width:
-            raise Expected("E:value")
-        return self.mk(NTN["BV_CONSTANT"], (), ("v", v, width), ("V", width))
+        return self.mk(NTN["BV_CONSTANT"], (), ("v", v, wnum), ("V", wnum))
 
     def SBV(self, val, width):
         kind, v = val
         if kind == "int":
-            if width is None or width == 0:
+            wnum = width[1] if isinstance(width, tuple) else width
+            if wnum is None or wnum <= 0:
                 raise Expected("E:value")
-            if v < -(2 ** (width - 1)) or v > 2 ** (width - 1) - 1:
+            if v < -(2 ** (wnum - 1)) or v > 2 ** (wnum - 1) - 1:
                 raise Expected("E:value")
-            return self.BV(("int", v % (2 ** width)), width)
+            return self.BV(("int", v % (2 ** wnum)), width)
         return self.BV(val, width)
 
     def Algebraic(self, tag):
@@ -434,13 +443,14 @@ class Blue(object):
     def Array(self, idx_ty, default, assign, order):
         """assign: dict key kid -> value kid; order: the key kids in increasing address order
         (the only thing the blueprint takes from the run: CPython addresses)"""
-        for k in assign:
-            if not self.is_const(k):
-                raise Expected("E:value")
         args = [default]
         for k in order:
+            if not self.is_const(k):
+                raise Expected("E:value")
             if assign[k] != default:
                 args += [k, assign[k]]
+            elif self.ty[k] != idx_ty:
+                raise Expected("E:type")    # a dropped assignment is still checked for its index sort
         return self.mk(NTN["ARRAY_VALUE"], tuple(args), ("t", idx_ty), ("A", idx_ty, self.ty[default]))
 
     def canon(self, k, memo):
@@ -531,6 +541,23 @@ def bv_value(rng, w):
     if rng.random() < 0.45:
         return rng.choice([0, 1, 2 ** w - 1, 2 ** (w - 1), max(2 ** (w - 1) - 1, 0), min(2 ** (w - 1) + 1, 2 ** w - 1)])
     return rng.randrange(2 ** w)
+
+
+def w_py(w):
+    return w[2] if isinstance(w, tuple) else w
+
+
+def w_wire(w):
+    if w is None:
+        return "N"
+    if isinstance(w, tuple):
+        return "a%d" % w[1]
+    return str(w)
+
+
+def alt_width(rng, w):
+    """a Python value that is == w and hashes like it but is not an int"""
+    return ("alt", w, True) if w == 1 and rng.random() < 0.7 else ("alt", w, float(w))
 
 
 def bvval_py(val):
@@ -903,23 +930,25 @@ class History(object):
 
     def c_BV(self, e, val, w):
         v = bvval_py(val)
-        ww = "N" if w is None else str(w)
+        pw = w_py(w)
         if w is None:
             py = lambda m: m.BV(v)
         else:
-            py = lambda m: m.BV(v, w)
-        return [bvval_wire(val), ww], py, (lambda B: B.BV(val, w))
+            py = lambda m: m.BV(v, pw)
+        return [bvval_wire(val), w_wire(w)], py, (lambda B: B.BV(val, w))
 
     def c_SBV(self, e, val, w):
         v = bvval_py(val)
-        ww = "N" if w is None else str(w)
-        return [bvval_wire(val), ww], (lambda m: m.SBV(v, w)), (lambda B: B.SBV(val, w))
+        pw = w_py(w)
+        return [bvval_wire(val), w_wire(w)], (lambda m: m.SBV(v, pw)), (lambda B: B.SBV(val, w))
 
     def c_BVOne(self, e, _v, w):
-        return [str(w)], (lambda m: m.BVOne(w)), (lambda B: B.BV(("int", 1), w))
+        pw = w_py(w)
+        return [w_wire(w)], (lambda m: m.BVOne(pw)), (lambda B: B.BV(("int", 1), w))
 
     def c_BVZero(self, e, _v, w):
-        return [str(w)], (lambda m: m.BVZero(w)), (lambda B: B.BV(("int", 0), w))
+        pw = w_py(w)
+        return [w_wire(w)], (lambda m: m.BVZero(pw)), (lambda B: B.BV(("int", 0), w))
 
     def c_BVUn(self, e, pyname, i):
         nt = {"BVNot": "BV_NOT", "BVNeg": "BV_NEG"}[pyname]
@@ -946,11 +975,19 @@ class History(object):
         if rhs[0] == "int":
             n = rhs[1]
             return [self.r(i), "i%d" % n], (lambda m: getattr(m, pyname)(a, n)), (lambda B: B.BVShift(nt, ka, ("int", n)))
+        if rhs[0] == "other":       # bool / float: `assert isinstance(right, FNode)`
+            val = rhs[1]
+            return [self.r(i), "o"], (lambda m: getattr(m, pyname)(a, val)), (lambda B: _expect("E:assert"))
         b, kb = self.o(rhs[1]), self.k(rhs[1])
         return [self.r(i), self.r(rhs[1])], (lambda m: getattr(m, pyname)(a, b)), (lambda B: B.BVShift(nt, ka, ("node", kb)))
 
     def c_BVExtract(self, e, i, start, end):
         a, ka = self.o(i), self.k(i)
+        if isinstance(start, tuple) or isinstance(end, tuple):
+            ps = start[1] if isinstance(start, tuple) else start
+            pe = end[1] if isinstance(end, tuple) else end
+            wire = [self.r(i), "o" if isinstance(start, tuple) else str(start), "o" if isinstance(end, tuple) else str(end)]
+            return wire, (lambda m: m.BVExtract(a, ps, pe)), (lambda B: _expect("E:assert"))
         if end is None:
             py = (lambda m: m.BVExtract(a, start)) if start != 0 else (lambda m: m.BVExtract(a))
         else:
@@ -960,11 +997,17 @@ class History(object):
     def c_BVRot(self, e, pyname, i, n):
         nt = {"BVRol": "BV_ROL", "BVRor": "BV_ROR"}[pyname]
         a, ka = self.o(i), self.k(i)
+        if isinstance(n, tuple):    # a bool / float step: rejected whatever it is equal to
+            val = n[1]
+            return [self.r(i), "o"], (lambda m: getattr(m, pyname)(a, val)), (lambda B: _expect("E:type"))
         return [self.r(i), str(n)], (lambda m: getattr(m, pyname)(a, n)), (lambda B: B.BVRot(nt, ka, n))
 
     def c_BVExt(self, e, pyname, i, n):
         nt = {"BVZExt": "BV_ZEXT", "BVSExt": "BV_SEXT"}[pyname]
         a, ka = self.o(i), self.k(i)
+        if isinstance(n, tuple):
+            val = n[1]
+            return [self.r(i), "o"], (lambda m: getattr(m, pyname)(a, val)), (lambda B: _expect("E:type"))
         return [self.r(i), str(n)], (lambda m: getattr(m, pyname)(a, n)), (lambda B: B.BVExt(nt, ka, n))
 
     def c_BVComp(self, e, i, j):
@@ -1378,6 +1421,12 @@ class History(object):
                ("BV", ("bool", True), w), ("BV", ("other", None), w), ("BV", ("other", None), None),
                ("SBV", ("int", 2 ** (w - 1)), w), ("SBV", ("int", -(2 ** (w - 1)) - 1), w), ("SBV", ("int", 1), None),
                ("SBV", ("int", -(2 ** (w - 1))), w), ("SBV", ("int", -1), w), ("SBV", ("other", None), w)]
+        b = format(v, "0%db" % w)
+        bad += [("BV", ("int", v), alt_width(rng, w)), ("BVOne", None, alt_width(rng, w)), ("BVZero", None, alt_width(rng, w)),
+                ("BV", ("str", "#b" + b), alt_width(rng, w)), ("BV", ("str", b), alt_width(rng, w + 1)),
+                ("SBV", ("int", 0), alt_width(rng, w)), ("SBV", ("int", 2 ** w), alt_width(rng, w)),
+                ("BV", ("int", 0), 0), ("BV", ("int", 0), -1), ("BV", ("other", None), 0), ("SBV", ("int", 0), 0),
+                ("BVZero", None, 0), ("BVOne", None, -2)]
         ctor, val, ww = rng.choice(bad)
         return self.build(e, ctor, val, ww)
 
@@ -1404,8 +1453,10 @@ class History(object):
                 en = rng.randrange(s, w)
             elif r < 0.85:
                 s, en = rng.randrange(w), None
-            else:
+            elif r < 0.95:
                 s, en = rng.choice([(1, 0), (0, w), (-1, 0), (2, 1)])
+            else:       # bool / float positions: equal to 0 / 1 as Python values, not ints
+                s, en = rng.choice([(("other", False), w - 1), (0, ("other", float(w - 1))), (("other", 0.0), None)])
             return self.build(e, "BVExtract", a, s, en)
         if c == 5:
             return self.emitP(e, rng.choice(["BVULT", "BVULE", "BVUGT", "BVUGE", "BVSLT", "BVSLE", "BVSGT", "BVSGE"]),
@@ -1414,13 +1465,21 @@ class History(object):
             a = self.pick(e, T)
             if rng.random() < 0.5:
                 rhs = ("node", self.pick(e, T))
-            else:
+            elif rng.random() < 0.9:
                 rhs = ("int", rng.choice([0, 1, w - 1, 2 ** w - 1, 2 ** w, -1]))
+            else:
+                return self.build(e, "BVShift", rng.choice(["BVLShl", "BVLShr"]), a, ("other", rng.choice([True, 1.0, False])))
             return self.build(e, "BVShift", rng.choice(["BVLShl", "BVLShr", "BVAShr"]), a, rhs)
         if c == 7:
-            return self.build(e, "BVRot", rng.choice(["BVRol", "BVRor"]), self.pick(e, T), rng.randrange(0, w + 1))
+            n = rng.randrange(0, w + 1)
+            if rng.random() < 0.12:     # the same step spelled as a bool / float: never accepted
+                n = ("other", True if n == 1 else False if n == 0 and rng.random() < 0.5 else float(n))
+            return self.build(e, "BVRot", rng.choice(["BVRol", "BVRor"]), self.pick(e, T), n)
         if c == 8:
-            return self.build(e, "BVExt", rng.choice(["BVZExt", "BVSExt"]), self.pick(e, T), rng.randrange(0, 5))
+            n = rng.randrange(0, 5)
+            if rng.random() < 0.12:
+                n = ("other", True if n == 1 else float(n))
+            return self.build(e, "BVExt", rng.choice(["BVZExt", "BVSExt"]), self.pick(e, T), n)
         if c == 9:
             return self.build(e, "BVComp", *self.picks(e, T, 2))
         if c == 10:
@@ -1484,6 +1543,13 @@ class History(object):
                     continue
                 v = d if rng.random() < 0.2 else self.pick(e, et)
                 kvs[self.o(k)] = (k, v)
+            if rng.random() < 0.08:
+                # an index of another sort whose value is the default: the assignment is dropped,
+                # its index must still be rejected (formula.py:1124-1127)
+                ot = rng.choice([t for t in (("I",), ("S",), ("V", 2), ("R",), ("B",)) if t != it])
+                k = self.const_of(e, ot)
+                if k is not None and self.usable(k):
+                    kvs[self.o(k)] = (k, d)
             a = self.build(e, "Array", it, d, tuple(kvs.values()))
             if self.usable(a):
                 # array_value_get on present, absent and default-valued indexes
